@@ -261,9 +261,17 @@ def ctor_evaluated(rep, repo, tmod, f):
         return c
     bad = None
     ntot = 0
+    # class-level attributes are shared by all instances (the module builds five libraries one after the other)
+    shared = {}
+    for st in tmod.cls('TechLib').body:
+        if isinstance(st, ast.Assign) and len(st.targets) == 1 and isinstance(st.targets[0], ast.Name):
+            try:
+                shared[st.targets[0].id] = minieval.ev(st.value, {})
+            except ModelError:
+                pass
     try:
         for lib, text, _node in libs:
-            me = minieval.NS()
+            me = minieval.NS(**shared)
             env = {'bench': minieval.NS(parse=minieval.stub(stand_in))}
             minieval.call_function(f, [me, text], env)
             got = getattr(me, 'cells', None)
